@@ -265,7 +265,7 @@ def independent_ms(ts):
         ms = Fraction(Decimal(r)) * 1000
     else:
         return None
-    return ms if abs(ms) < 2 ** 53 else None
+    return ms if abs(ms) < 2 ** 46 else None      # beyond that a double cannot hold the instant to a fraction of a ms
 
 
 def independent_ts_ok(ts, parsed):
@@ -279,7 +279,7 @@ def independent_ts_ok(ts, parsed):
     if parsed is None or isinstance(parsed, bool) or not isinstance(parsed, (int, float)) or parsed != parsed:
         return False
     got = Fraction(parsed) * 1000
-    eps = Fraction(1, 10 ** 6)
+    eps = max(Fraction(1, 10 ** 6), abs(ms) / 2 ** 50)      # representation error of the parsed double (and of a float input)
     d = (ms - got) if ms >= 0 else (got - ms)      # how far the parsed instant lies towards zero from the exposed one
     return -eps <= d <= 1 + eps
 
